@@ -264,13 +264,14 @@ pub trait SurfaceMut: Surface {
     /// Set value at row and column
     fn set(&mut self, pos: Position, item: Self::Item) -> Self::Item {
         let shape = self.shape();
-        debug_assert!(
+        // NOTE: position outside of the view can still be inside of the parent surface
+        assert!(
             pos.row < shape.height,
             "row {} is out of bound (height {})",
             pos.row,
             shape.height
         );
-        debug_assert!(
+        assert!(
             pos.col < shape.width,
             "column {} is out of bound (width {})",
             pos.col,
@@ -414,7 +415,8 @@ impl<'a, T: 'a> Iterator for SurfaceIter<'a, T> {
     }
 
     fn nth(&mut self, n: usize) -> Option<Self::Item> {
-        self.index += n + 1;
+        // NOTE: must not wrap around, mutable iterator would return the same reference twice
+        self.index = self.index.saturating_add(n).saturating_add(1);
         let pos = self.shape.nth(self.index - 1)?;
         self.data.get(self.shape.offset(pos))
     }
@@ -471,7 +473,8 @@ impl<'a, T: 'a> Iterator for SurfaceMutIter<'a, T> {
     }
 
     fn nth(&mut self, n: usize) -> Option<Self::Item> {
-        self.index += n + 1;
+        // NOTE: must not wrap around, mutable iterator would return the same reference twice
+        self.index = self.index.saturating_add(n).saturating_add(1);
         let pos = self.shape.nth(self.index - 1)?;
         let offset = self.shape.offset(pos);
 
